@@ -527,9 +527,23 @@ impl<'a> TypeHumanizer<'a> {
     // ─── Array ──────────────────────────────────────────────────────
 
     fn write_array_type<W: Write>(&mut self, inner: &LuaType, w: &mut W) -> fmt::Result {
+        // `?` and the unary minus bind looser than `[]`: `A?[]` is not an array of `A?`
+        // and `-1[]` is `-(1[])`, so such element types need parentheses.
+        let needs_parens = match inner {
+            LuaType::Union(union) => union.into_vec().iter().any(|ty| ty.is_nil()),
+            LuaType::IntegerConst(i) | LuaType::DocIntegerConst(i) => *i < 0,
+            LuaType::FloatConst(f) => *f < 0.0,
+            _ => false,
+        };
         let saved = self.level;
         self.level = self.child_level();
+        if needs_parens {
+            w.write_char('(')?;
+        }
         self.write_type(inner, w)?;
+        if needs_parens {
+            w.write_char(')')?;
+        }
         self.level = saved;
         w.write_str("[]")
     }
